@@ -232,3 +232,17 @@ def record_canon(ptn, obj, cls, op, mode, tn=0, td=1, want_exact=True):
     except BaseException as ex:  # noqa
         tr.append(dict(ev='raise', exc=f'{type(ex).__name__}: {str(ex)[:80]}'))
     return tr
+
+
+def poke(obj, rng, tr, how=None):
+    """a user modification of one site tensor between two calls on the same object (keeps the sparsity pattern and the charges)"""
+    i = int(rng.integers(len(obj.A)))
+    how = how or str(rng.choice(['assign', 'inplace', 'assign_all']))
+    if how == 'assign':
+        obj.A[i] = obj.A[i] * rng.integers(1, 4, size=obj.A[i].shape)
+    elif how == 'inplace':
+        obj.A[i] *= 3
+    else:
+        for k in range(len(obj.A)):
+            obj.A[k] = obj.A[k] * rng.integers(1, 3, size=obj.A[k].shape)
+    tr.append(dict(ev='poke', site=i + 1, how=how))
